@@ -19,6 +19,7 @@ from bqskit.ir.gates import CircuitGate
 from bqskit.ir.gates import CNOTGate
 from bqskit.ir.gates import HGate
 from bqskit.ir.gates import RZGate
+from bqskit.ir.gates import U3Gate
 from bqskit.ir.gates import XGate
 from bqskit.ir.operation import Operation
 from bqskit.passes.control.dothendecide import DoThenDecide
@@ -262,6 +263,18 @@ def blocked_circuits() -> list[tuple[str, Circuit]]:
     c.append_circuit(b2, (1, 0), True)
     c.append_circuit(b2, (0, 1), True)
     out.append(('three blocks each alone in a cycle', c))
+    # one parameterised block gate object used by several operations, each
+    # with its own parameters
+    layer = Circuit(2)
+    layer.append_gate(U3Gate(), 0)
+    layer.append_gate(RZGate(), 1)
+    layer.append_gate(CNOTGate(), (0, 1))
+    g = CircuitGate(layer)
+    c = Circuit(3)
+    c.append_gate(g, (0, 1), [0.1, 0.2, 0.3, 0.4])
+    c.append_gate(g, (1, 2), [1.1, 1.2, 1.3, 1.4])
+    c.append_gate(g, (0, 1), [2.1, 2.2, 2.3, 2.4])
+    out.append(('one parameterised block gate shared by three operations', c))
     return out
 
 
@@ -344,7 +357,7 @@ def foreach_cases() -> dict:
                 fails.append(_fail('ForEachBlockPass.run', scen,
                                    'body did not run exactly once per block'))
     return _res('ForEachBlockPass.run', n, fails,
-                '3 partitioned circuits x 3 collection filters x 3 bodies x '
+                '4 partitioned circuits x 3 collection filters x 3 bodies x '
                 '3 replace filters')
 
 
